@@ -37,6 +37,10 @@ def one(d):
                         for p, v in checks.items()},
         'detected': any(v['rc'] == 1 for v in checks.values()),
     }
+    if out.get('demo_with') == 0 and out.get('demo_without') == 0:
+        # the demonstration passes WITH the change on the current /repo: a later repair of the library removed what the change relied on
+        meta['still_breaks_property'] = False
+        meta['note'] = 'neutralised by a later fix: commit of /repo (its demonstration no longer fails with the change applied)'
     json.dump(meta, open(os.path.join(d, 'meta.json'), 'w'), indent=1, ensure_ascii=False)
     return name, meta['detected'], {p: v['rc'] for p, v in checks.items()}, meta['confirmed']
 
@@ -46,4 +50,4 @@ if a.only:
     dirs = [d for d in dirs if os.path.basename(d) in a.only.split(',')]
 with ThreadPoolExecutor(a.jobs) as ex:
     for name, det, rc, conf in ex.map(one, dirs):
-        print(name, 'DETECTED' if det else 'MISSED', rc, conf)
+        print(name, 'DETECTED' if det else ('NEUTRALISED' if conf.get('demo_exit_with_patch') == 0 and conf.get('demo_exit_without_patch') == 0 else 'MISSED'), rc, conf)
